@@ -9,10 +9,13 @@ package main
 import (
 	"fmt"
 	"iter"
+	"math"
 	"math/rand"
+	"os"
 	"reflect"
 	"sort"
 	"strconv"
+	"strings"
 	"sync"
 	"unsafe"
 
@@ -82,8 +85,9 @@ func (s *script) Uint64() uint64 {
 func (s *script) Int63() int64 { return int64(s.Uint64() >> 1) }
 func (s *script) Seed(int64)   {}
 
-// plant replaces the private *rand.Rand of a skip list. Returns false if the
-// field is not there (then the list's own randomness is used).
+// plant replaces the private *rand.Rand of a skip list (the field called "rand", else the
+// first field of that type). Returns false if there is none (then the list's own
+// randomness is used).
 func plant(list any, sc *script) (ok bool) {
 	defer func() {
 		if recover() != nil {
@@ -91,9 +95,20 @@ func plant(list any, sc *script) (ok bool) {
 		}
 	}()
 	v := reflect.ValueOf(list).Elem()
+	want := reflect.TypeOf((*rand.Rand)(nil))
 	f := v.FieldByName("rand")
-	if !f.IsValid() || f.Type() != reflect.TypeOf((*rand.Rand)(nil)) {
-		return false
+	if !f.IsValid() || f.Type() != want {
+		// renamed: take the first field of that type, whatever it is called
+		f = reflect.Value{}
+		for i := 0; i < v.NumField(); i++ {
+			if v.Field(i).Type() == want {
+				f = v.Field(i)
+				break
+			}
+		}
+		if !f.IsValid() {
+			return false
+		}
 	}
 	*(**rand.Rand)(unsafe.Pointer(f.UnsafeAddr())) = rand.New(sc)
 	return true
@@ -315,18 +330,27 @@ type sut struct {
 	// list); running it later, more than once, must enumerate the bindings of then
 	kept    iter.Seq2[int, int]
 	keptAge int
+	// removed: order classes of keys that were bound once and then removed (coverage only)
+	removed map[int]bool
 }
 
 func (s *sut) sameKey(a, b int) bool { return s.m.ord.cls(a) == s.m.ord.cls(b) }
 
 func (s *sut) seqEqual(what string, got, want []kv) bool {
+	// the signature names the method, the message carries the arguments
+	sig := "enum/" + what
+	if strings.HasPrefix(what, "RangeWith") {
+		if i := strings.IndexByte(what, '('); i > 0 {
+			sig = "enum/" + what[:i]
+		}
+	}
 	if len(got) != len(want) {
-		s.c.Failf("enum/"+what, "%s enumerated %d bindings, the sorted-map model has %d there (got %v want %v)", what, len(got), len(want), clip(got), clip(want))
+		s.c.Failf(sig, "%s enumerated %d bindings, the sorted-map model has %d there (got %v want %v)", what, len(got), len(want), clip(got), clip(want))
 		return false
 	}
 	for i := range got {
 		if !s.sameKey(got[i].k, want[i].k) || got[i].v != want[i].v {
-			s.c.Failf("enum/"+what, "%s: position %d is (%d,%d), model says (%d,%d) (got %v want %v)", what, i, got[i].k, got[i].v, want[i].k, want[i].v, clip(got), clip(want))
+			s.c.Failf(sig, "%s: position %d is (%d,%d), model says (%d,%d) (got %v want %v)", what, i, got[i].k, got[i].v, want[i].k, want[i].v, clip(got), clip(want))
 			return false
 		}
 	}
@@ -488,6 +512,7 @@ func (s *sut) enumerate() bool {
 			c.Failf("stop/Range", "Range with a callback returning false at call %d made %d calls", k, calls)
 			return false
 		}
+		c.Add("early_stops/Range", 1)
 		calls = 0
 		if !c.Guard("All-stop", func() {
 			s.l.All()(func(int, int) bool { calls++; return calls < k && calls < len(want)+3 })
@@ -498,6 +523,7 @@ func (s *sut) enumerate() bool {
 			c.Failf("stop/All", "All with yield returning false at call %d made %d calls", k, calls)
 			return false
 		}
+		c.Add("early_stops/All", 1)
 	}
 	return true
 }
@@ -525,15 +551,24 @@ func (s *sut) rangeQueries(n int) bool {
 				c.Failf("stop/RangeWithStart", "RangeWithStart(%d) with a callback returning false at call %d made %d calls (model: %d keys >= start)", st, stop, calls, len(want))
 				return false
 			}
+			c.Add("early_stops/RangeWithStart", 1)
+			if _, present := s.m.find(st); present && stop == 1 && len(want) > 1 {
+				// false returned for the start key itself while greater keys exist
+				c.Add("early_stops/RangeWithStart/at_present_start", 1)
+			}
 			want = want[:stop]
 		}
 		if !s.seqEqual(fmt.Sprintf("RangeWithStart(%d)", st), got, want) {
 			return false
 		}
-		if _, present := s.m.find(st); present {
+		_, stPresent := s.m.find(st)
+		if stPresent {
 			c.Add("range_start_present", 1)
 		} else {
 			c.Add("range_start_absent", 1)
+			if s.removed[s.m.ord.cls(st)] {
+				c.Add("range_start_is_removed_key", 1)
+			}
 		}
 		e := rng.Range(-2, s.maxKey+2)
 		want = s.m.between(st, e)
@@ -551,17 +586,35 @@ func (s *sut) rangeQueries(n int) bool {
 				c.Failf("stop/RangeWithRange", "RangeWithRange(%d,%d) with a callback returning false at call %d made %d calls", st, e, stop, calls)
 				return false
 			}
+			c.Add("early_stops/RangeWithRange", 1)
+			if len(want) < len(s.m.from(st)) {
+				// the callback stops the walk before the end bound does
+				c.Add("early_stops/RangeWithRange/keys_beyond_end_exist", 1)
+			}
 			want = want[:stop]
+		} else if len(want) > 0 && len(want) < len(s.m.from(st)) {
+			c.Add("rangewithrange_cut_by_end", 1)
 		}
 		if !s.seqEqual(fmt.Sprintf("RangeWithRange(%d,%d)", st, e), got, want) {
 			return false
 		}
 		if s.m.ord.cls(st) >= s.m.ord.cls(e) {
 			c.Add("range_empty_interval", 1)
+		} else if len(want) > 0 {
+			if stPresent {
+				c.Add("rangewithrange_nonempty_start_present", 1)
+			} else {
+				c.Add("rangewithrange_nonempty_start_absent", 1)
+			}
 		}
 	}
 	return true
 }
+
+var (
+	callsPresent = [...]string{"calls/Set/key_present", "calls/SetX/key_present", "calls/SetNx/key_present"}
+	callsAbsent  = [...]string{"calls/Set/key_absent", "calls/SetX/key_absent", "calls/SetNx/key_absent"}
+)
 
 func (s *sut) opSet(k, v, mode int) bool {
 	c := s.c
@@ -592,6 +645,11 @@ func (s *sut) opSet(k, v, mode int) bool {
 	if got != want {
 		c.Failf("result/"+name, "%s(%d,%d) returned %v, key present in model: %v", name, k, v, got, present)
 		return false
+	}
+	if present {
+		c.Add(callsPresent[mode], 1)
+	} else {
+		c.Add(callsAbsent[mode], 1)
 	}
 	if want {
 		if present {
@@ -624,6 +682,12 @@ func (s *sut) opRemove(k int) bool {
 	if present {
 		s.m.b = append(s.m.b[:i], s.m.b[i+1:]...)
 		c.Add("removals", 1)
+		if s.removed == nil {
+			s.removed = map[int]bool{}
+		}
+		s.removed[s.m.ord.cls(k)] = true
+	} else {
+		c.Add("calls/Remove/key_absent", 1)
 	}
 	s.hash = ev.Mix(s.hash, 9, uint64(k+7))
 	s.trackLevel()
@@ -653,6 +717,11 @@ func (s *sut) opGet(k int) bool {
 	if nok != present || (present && (!s.sameKey(nk, k) || nv != s.m.b[i].v)) {
 		c.Failf("result/GetNode", "GetNode(%d) = node(%d,%d) ok=%v; model: present=%v", k, nk, nv, nok, present)
 		return false
+	}
+	if present {
+		c.Add("calls/Get+GetNode/key_present", 1)
+	} else {
+		c.Add("calls/Get+GetNode/key_absent", 1)
 	}
 	if present && c.Rng.Chance(1, 4) {
 		nv2 := 5000 + c.Rng.Intn(1000)
@@ -824,6 +893,36 @@ func build(variant int, zero bool) (omap, order, string) {
 			return 0
 		}
 		return &withCmp[int]{listz.NewSkipListWithCmp[int, int](big), big, id, id}, orders[0], "SkipListWithCmp[int]/magnitudes"
+	case 10:
+		// the extreme ints as the only non-zero results: -x of the "less" result is still negative
+		ext := func(a, b int) int {
+			switch {
+			case a < b:
+				return math.MinInt
+			case a > b:
+				return math.MaxInt
+			}
+			return 0
+		}
+		return &withCmp[int]{listz.NewSkipListWithCmp[int, int](ext), ext, id, id}, orders[0], "SkipListWithCmp[int]/extremes"
+	case 11:
+		// reversed order; extreme results for some pairs, +-1 for the others
+		ext := func(a, b int) int {
+			switch {
+			case a < b:
+				if a%2 == 0 {
+					return math.MaxInt
+				}
+				return 1
+			case a > b:
+				if b%2 == 0 {
+					return math.MinInt
+				}
+				return -1
+			}
+			return 0
+		}
+		return &withCmp[int]{listz.NewSkipListWithCmp[int, int](ext), ext, id, id}, orders[1], "SkipListWithCmp[int]/reversed-extremes"
 	default:
 		// reversed order expressed as a difference
 		r := func(a, b int) int { return 3 * (b - a) }
@@ -831,9 +930,17 @@ func build(variant int, zero bool) (omap, order, string) {
 	}
 }
 
-func seqCase(c *ev.Case) {
+func seqCase(c *ev.Case) { seqVariant(c, c.Rng.Intn(10)) }
+
+// extremeCmpCase: the same mixed sequences under comparators whose non-zero results are
+// math.MinInt / math.MaxInt ("any total-order comparator": only the sign carries meaning).
+func extremeCmpCase(c *ev.Case) {
+	seqVariant(c, 10+c.Rng.Intn(2))
+	c.Add("extreme_comparator_sequences", 1)
+}
+
+func seqVariant(c *ev.Case, variant int) {
 	rng := c.Rng
-	variant := rng.Intn(10)
 	zero := variant <= 2 && rng.Chance(1, 4)
 	var l omap
 	var ord order
@@ -940,6 +1047,200 @@ func zeroCase(c *ev.Case) {
 	c.Distinct(ev.Mix(uint64(c.Index), 77))
 	if c.WantSample() {
 		c.Sample(fmt.Sprintf("zero-value %s: first call %s (after Clear: %v), then mixed operations, Clear, mixed operations", name, first, afterClear))
+	}
+}
+
+// ---- single-call granularity: the exact named method is the first call on a zero value ----
+
+var readMethods = []string{"Get", "GetNode", "Len", "Head", "Range", "All", "Keys", "Values", "RangeWithStart", "RangeWithRange"}
+
+// readOne makes exactly ONE list call, the named read method, and compares its result with the model.
+func (s *sut) readOne(m string, a, b int) bool {
+	c := s.c
+	want := s.m.b
+	i, present := s.m.find(a)
+	switch m {
+	case "Get":
+		var v int
+		var ok bool
+		if !c.Guard("Get", func() { v, ok = s.l.Get(a) }) {
+			return false
+		}
+		c.Logf("Get(%d) -> (%d,%v)", a, v, ok)
+		if ok != present || (present && v != want[i].v) || (!present && v != 0) {
+			c.Failf("result/Get", "Get(%d) = (%d,%v); model: present=%v %v", a, v, ok, present, clip(want))
+			return false
+		}
+	case "GetNode":
+		var nk, nv int
+		var nok bool
+		if !c.Guard("GetNode", func() { nk, nv, nok, _ = s.l.GetNode(a) }) {
+			return false
+		}
+		c.Logf("GetNode(%d) -> node(%d,%d) ok=%v", a, nk, nv, nok)
+		if nok != present || (present && (!s.sameKey(nk, a) || nv != want[i].v)) {
+			c.Failf("result/GetNode", "GetNode(%d) = node(%d,%d) ok=%v; model: present=%v %v", a, nk, nv, nok, present, clip(want))
+			return false
+		}
+	case "Len":
+		var n int
+		if !c.Guard("Len", func() { n = s.l.Len() }) {
+			return false
+		}
+		c.Logf("Len() -> %d", n)
+		if n != len(want) {
+			c.Failf("len", "Len() = %d, model has %d bindings", n, len(want))
+			return false
+		}
+	case "Head":
+		var hk, hv int
+		var hok bool
+		if !c.Guard("Head", func() { hk, hv, hok = s.l.Head() }) {
+			return false
+		}
+		c.Logf("Head() -> (%d,%d,%v)", hk, hv, hok)
+		if hok != (len(want) > 0) || (hok && (!s.sameKey(hk, want[0].k) || hv != want[0].v)) {
+			c.Failf("head", "Head() = (%d,%d,%v), model minimum %v", hk, hv, hok, clip(want))
+			return false
+		}
+	case "Range":
+		got, _, ok := s.collect("Range", s.l.Range, 0)
+		c.Logf("Range -> %v", clip(got))
+		if !ok || !s.seqEqual("Range", got, want) {
+			return false
+		}
+	case "All":
+		var got []kv
+		ok := c.Guard("All", func() {
+			for k, v := range s.l.All() {
+				got = append(got, kv{k, v})
+				if len(got) > len(want)+3 {
+					break
+				}
+			}
+		})
+		c.Logf("All -> %v", clip(got))
+		if !ok || !s.seqEqual("All", got, want) {
+			return false
+		}
+	case "Keys":
+		var ks []int
+		if !c.Guard("Keys", func() { ks = s.l.Keys() }) {
+			return false
+		}
+		c.Logf("Keys() -> %v", ks)
+		if len(ks) != len(want) {
+			c.Failf("enum/Keys", "Keys() has %d entries, model %d bindings %v", len(ks), len(want), clip(want))
+			return false
+		}
+		for j := range want {
+			if !s.sameKey(ks[j], want[j].k) {
+				c.Failf("enum/Keys", "Keys() position %d = %d, model %d", j, ks[j], want[j].k)
+				return false
+			}
+		}
+	case "Values":
+		var vs []int
+		if !c.Guard("Values", func() { vs = s.l.Values() }) {
+			return false
+		}
+		c.Logf("Values() -> %v", vs)
+		if len(vs) != len(want) {
+			c.Failf("enum/Values", "Values() has %d entries, model %d bindings %v", len(vs), len(want), clip(want))
+			return false
+		}
+		for j := range want {
+			if vs[j] != want[j].v {
+				c.Failf("enum/Values", "Values() position %d = %d, model %d", j, vs[j], want[j].v)
+				return false
+			}
+		}
+	case "RangeWithStart":
+		got, _, ok := s.collect("RangeWithStart", func(f func(k, v int) bool) { s.l.RangeWithStart(a, f) }, 0)
+		c.Logf("RangeWithStart(%d) -> %v", a, clip(got))
+		if !ok || !s.seqEqual(fmt.Sprintf("RangeWithStart(%d)", a), got, s.m.from(a)) {
+			return false
+		}
+	case "RangeWithRange":
+		got, _, ok := s.collect("RangeWithRange", func(f func(k, v int) bool) { s.l.RangeWithRange(a, b, f) }, 0)
+		c.Logf("RangeWithRange(%d,%d) -> %v", a, b, clip(got))
+		if !ok || !s.seqEqual(fmt.Sprintf("RangeWithRange(%d,%d)", a, b), got, s.m.between(a, b)) {
+			return false
+		}
+	default:
+		c.Failf("harness/unknown-method", "no single-call reader for %q", m)
+		return false
+	}
+	c.Add("single_call_reads", 1)
+	return true
+}
+
+// callOne: the named method is the next list call (writes are followed by the usual observers).
+func (s *sut) callOne(m string, a, b int) bool {
+	v := 1 + s.c.Rng.Intn(900)
+	switch m {
+	case "Remove":
+		return s.opRemove(a)
+	case "SetX":
+		return s.opSet(a, v, 1)
+	case "SetNx":
+		return s.opSet(a, v, 2)
+	case "Set":
+		return s.opSet(a, v, 0)
+	case "Clear":
+		return s.opClear(false)
+	}
+	return s.readOne(m, a, b)
+}
+
+// firstCase: each of the 15 methods is, by itself, the very first call made on a zero-value
+// SkipList (or the first after a Clear of the zero value); then every read method is called
+// singly in a random order, then single calls are mixed, twice more after a Clear.
+// As a child-process engine the call is also the first skip-list call of the process.
+func firstCase(c *ev.Case) {
+	rng := c.Rng
+	nm := len(zeroMethods)
+	first := zeroMethods[c.Index%nm]
+	afterClear := (c.Index/nm)%2 == 1
+	variant := (c.Index + c.Index/(2*nm)) % 3
+	l, ord, name := build(variant, true)
+	sc := &script{rng: rng.Fork(), mode: rng.Intn(6)}
+	s := &sut{c: c, l: l, m: &model{ord: ord}, sc: sc, zero: true, maxKey: 8}
+	c.Logf("zero-value %s, first single call %s, after Clear: %v", name, first, afterClear)
+	if afterClear {
+		if !c.Guard("Clear", func() { l.Clear() }) {
+			return
+		}
+		c.Logf("Clear()")
+	}
+	if !s.callOne(first, rng.Intn(8), rng.Range(-1, 9)) {
+		return
+	}
+	for round := 0; round < 3; round++ {
+		for _, j := range rng.Perm(len(readMethods)) {
+			if !s.readOne(readMethods[j], rng.Range(-1, 9), rng.Range(-1, 9)) {
+				return
+			}
+		}
+		for i := 0; i < 10; i++ {
+			if !s.callOne(zeroMethods[rng.Intn(nm)], rng.Intn(8), rng.Range(-1, 9)) {
+				return
+			}
+		}
+		if round < 2 && !s.opClear(false) {
+			return
+		}
+	}
+	c.Add("zero_first_call/"+first, 1)
+	if afterClear {
+		c.Add("zero_first_call_after_clear", 1)
+	}
+	if os.Getenv("VERIF_CHILD") != "" {
+		c.Add("zero_first_call_of_the_process", 1)
+	}
+	c.Distinct(ev.Mix(uint64(c.Index), s.hash, 177))
+	if c.WantSample() {
+		c.Sample(fmt.Sprintf("zero-value %s: %s alone is the first call (after Clear: %v); then each read method singly in random order, mixed single calls, Clear, twice more", name, first, afterClear))
 	}
 }
 
@@ -1107,7 +1408,7 @@ func parallelCase(c *ev.Case) {
 func main() {
 	r := ev.New("C02")
 	r.Rule("one case = (list type and key type / comparator, zero value or constructed, height script, key space, seeded operation sequence incl. range queries with present/absent/out-of-range bounds and early-stopping callbacks); every result compared with a sorted-slice model; distinct = hash of the write sequence + variant + height script")
-	r.Assume("tower heights are scripted by replacing the private *rand.Rand (field found by name and type); if it cannot be found the list's own randomness is used and counted as such")
+	r.Assume("tower heights are scripted by replacing the private *rand.Rand (field found by name, else by type); if it cannot be found the list's own randomness is used and counted as such")
 	r.Assume("comparators return any negative / zero / positive int (difference, large magnitudes), not only -1/0/1")
 	r.Assume("for the comparator that identifies keys modulo 7 the model also treats them as one key and compares keys up to that equivalence")
 	r.Assume("SkipListWithCmp is only used after Init with a comparator; the zero-value clause is checked for SkipList")
@@ -1119,6 +1420,12 @@ func main() {
 	// with (on a zero value, a new list, a scripted list) is the first skip-list call of the process
 	r.CasesProc("cold-start/seq", 16, ev.Opt{Procs: 16, HangViolation: true}, seqCase)
 	r.CasesProc("cold-start/zero", 8, ev.Opt{Procs: 8, HangViolation: true}, zeroCase)
+	// the exact named method as the first call on a zero value (in-process, and as the first
+	// skip-list call of a fresh process: one process per method and before/after Clear)
+	r.Cases("first-call", r.N(3*len(zeroMethods)*2*2, 3*len(zeroMethods)*2*100), ev.Opt{HangViolation: true}, firstCase)
+	r.CasesProc("fresh-process-first-call", 2*len(zeroMethods), ev.Opt{Procs: 2 * len(zeroMethods), HangViolation: true}, firstCase)
+	// comparators whose results are the extreme ints
+	r.Cases("extreme-cmp", r.N(3000, 150000), ev.Opt{HangViolation: true}, extremeCmpCase)
 	r.Require("full_enumerations", 10000)
 	r.Require("inserts", 100000)
 	r.Require("removals", 100000)
@@ -1128,5 +1435,32 @@ func main() {
 	r.Require("quiet_windows_closed", 3000)
 	r.Require("kept_sequences_rerun", 5000)
 	r.Require("tall_scripts_at_max_level", 100)
+	for _, m := range zeroMethods {
+		r.Require("zero_first_call/"+m, 8)
+	}
+	r.Require("zero_first_call_after_clear", 60)
+	r.Require("zero_first_call_of_the_process", int64(2*len(zeroMethods)))
+	r.Require("single_call_reads", 3000)
+	r.Require("extreme_comparator_sequences", 2000)
+	for _, v := range []string{"SkipList[int]", "SkipList[string]", "SkipList[float64]", "SkipListWithCmp[int]/natural", "SkipListWithCmp[int]/reversed",
+		"SkipListWithCmp[string]/length-then-lex", "SkipListWithCmp[int]/mod7", "SkipListWithCmp[int]/difference", "SkipListWithCmp[int]/magnitudes",
+		"SkipListWithCmp[int]/reversed-difference", "SkipListWithCmp[int]/extremes", "SkipListWithCmp[int]/reversed-extremes"} {
+		r.Require("variant/"+v, 1000)
+	}
+	for _, m := range []string{"Set", "SetX", "SetNx", "Get+GetNode"} {
+		r.Require("calls/"+m+"/key_present", 20000)
+		r.Require("calls/"+m+"/key_absent", 20000)
+	}
+	r.Require("calls/Remove/key_absent", 20000)
+	for _, m := range []string{"Range", "All", "RangeWithStart", "RangeWithRange"} {
+		r.Require("early_stops/"+m, 10000)
+	}
+	r.Require("early_stops/RangeWithStart/at_present_start", 1000)
+	r.Require("early_stops/RangeWithRange/keys_beyond_end_exist", 5000)
+	r.Require("range_start_is_removed_key", 20000)
+	r.Require("range_empty_interval", 20000)
+	r.Require("rangewithrange_nonempty_start_present", 5000)
+	r.Require("rangewithrange_nonempty_start_absent", 5000)
+	r.Require("rangewithrange_cut_by_end", 5000)
 	r.Finish()
 }
